@@ -74,6 +74,8 @@ type Contract struct {
 	Sites     map[string][]*SiteAnn
 	Assumed   []string             // free-text assumptions made by this contract (listed in evidence)
 	NoNilFn   bool                 // function values called in the body are assumed non-nil (recorded in Assumed)
+	FrameOnly []string             // with NoFrame: structs whose fields are nevertheless frame-checked
+	FrameTags []string
 	NoFrame   bool                 // the modifies clause is used at call sites but not checked against the body
 	ChecksPub bool                 // element writes are checked against the publication typestate (functions that fill the shared caches)
 	NoSafety  bool                 // the zero-annotation no-panic sweep is not run for this function (recorded in Assumed)
@@ -513,6 +515,16 @@ func (ss *SpecSet) parseFile(path string, dep bool) error {
 				}
 			case "assumes":
 				cur.Assumed = append(cur.Assumed, strings.Trim(rest, `"`))
+			case "frame-only":
+				// frame-only T [tags]: the modifies clause is checked against the body for the fields of struct T only
+				f := strings.Fields(rest)
+				if len(f) == 0 {
+					return fmt.Errorf("%s:%d: frame-only <Struct> [tags]", path, ln+1)
+				}
+				cur.FrameOnly = append(cur.FrameOnly, f[0])
+				if len(f) > 1 {
+					cur.FrameTags = append(cur.FrameTags, strings.Split(strings.Trim(f[1], "[]"), ",")...)
+				}
 			case "noframe":
 				cur.NoFrame = true
 				cur.Assumed = append(cur.Assumed, "the modifies clause of "+cur.Key+" is not checked against its body (it calls user code and allocates): "+strings.Trim(rest, `"`))
